@@ -52,3 +52,11 @@ Definition d_get {A} (k : nat) (dflt : A) (d : list (nat * A)) : A := match d_fi
 (* outcome of a method that may raise: PyExn st = an exception, leaving the written fields in state st; PyOk x = normal end *)
 Inductive pyres (S A : Type) := PyOk (a : A) | PyExn (s : S).
 Arguments PyOk {S A} a. Arguments PyExn {S A} s.
+(* len(xs) == len(set(xs)): no name occurs twice *)
+Fixpoint nodupb (l : list nat) : bool := match l with [] => true | x :: t => negb (s_mem x t) && nodupb t end.
+Lemma nodupb_NoDup l : nodupb l = true <-> NoDup l.
+Proof. induction l as [|x t IH]; cbn [nodupb]; [split; [constructor|reflexivity]|]. rewrite andb_true_iff, negb_true_iff, IH. split.
+  - intros [H1 H2]. constructor; [intros Q; apply s_mem_In in Q; congruence|exact H2].
+  - intros H. inversion H; subst. split; [destruct (s_mem x t) eqn:E; [apply s_mem_In in E; contradiction|reflexivity]|assumption]. Qed.
+(* s == t on sets *)
+Definition set_eqb (a b : list nat) : bool := forallb (fun x => s_mem x b) a && forallb (fun x => s_mem x a) b.
